@@ -558,7 +558,9 @@ def check_guard_classes(prog, rep, ieng, tk, ch, g, where):
         if pk and lit:
             recv = pk[0][2][0]
             derives = terms.mentions_param(recv, helper.param_names()[0])
-            skipped = any(x[0] == "call" and x[1].endswith("is_whitespace") for x in subterms(recv)) or "skip_whitespaces" in pt(recv)
+            skipped = any(x[0] == "call" and x[1].endswith("is_whitespace") for x in subterms(recv)) or "skip_whitespaces" in pt(recv) or \
+                any(x.kind == "call" and x.is_call_to("skip_whitespaces") for x in s.all_sites()) or \
+                any(x.kind in ("call", "mcall") and (x.name == "is_whitespace" or str(x.callee).endswith("is_whitespace")) for x in s.all_sites())
             only_next = True
             good = derives and skipped
             if not skipped:
